@@ -103,6 +103,26 @@ def procx(qb=60, tb=600):
     }
 
 
+def worldx2(prop, qb, tb):
+    return {
+        "name": "worldx2", "dir": "worldx2", "variant": "verif",
+        "cmd": ["/usr/bin/python3", "{root}/harness/worldx2/worldx2.py", "--prop", prop, "--tier", "{tier}", "--shard", "{shard}",
+                "--nshards", "{nshards}", "--out", "{out}", "--seed", "{seed}", "--budget", "{budget}"],
+        "shards": {"quick": 16, "thorough": 16},
+        "budget": {"quick": qb, "thorough": tb},
+    }
+
+
+def worldx3(qb, tb):
+    return {
+        "name": "worldx3", "dir": "worldx3", "variant": "verif",
+        "cmd": ["/usr/bin/python3", "{root}/harness/worldx3/worldx3.py", "--prop", "C18", "--tier", "{tier}", "--shard", "{shard}",
+                "--nshards", "{nshards}", "--out", "{out}", "--seed", "{seed}", "--budget", "{budget}"],
+        "shards": {"quick": 16, "thorough": 16},
+        "budget": {"quick": qb, "thorough": tb},
+    }
+
+
 A_SCHED = [
     "sequential consistency; atomics are not scheduling points (every conflicting pair of atomic accesses in these bodies is separated by a mutex operation)",
     "data races as such are invisible to a serialising scheduler",
@@ -125,10 +145,12 @@ CHECKS = {
     "C05": {"level": "model_checking", "parts": [enginex("C05"), schedx("C05"), tsanx("C05")], "assumptions": A_ENGINE + A_SCHED},
     "C06": {"level": "model_checking", "parts": [enginex("C06"), schedx("C06"), tsanx("C06")], "assumptions": A_ENGINE + A_SCHED},
     "C07": {"level": "model_checking", "parts": [enginex("C07")], "assumptions": A_ENGINE},
-    "C08": {"level": "exploration", "parts": [worldx("C08", 200, 1500)], "assumptions": []},
-    "C09": {"level": "exploration", "parts": [worldx("C09", 200, 1500)], "assumptions": []},
-    "C10": {"level": "exploration", "parts": [worldx("C10", 150, 600)], "assumptions": []},
-    "C11": {"level": "exploration", "parts": [parsex("C11")], "assumptions": []},
+    "C08": {"level": "model_checking", "parts": [worldx("C08", 200, 1500)], "assumptions": []},
+    "C09": {"level": "model_checking", "parts": [worldx("C09", 200, 1500)], "assumptions": []},
+    "C10": {"level": "model_checking", "parts": [worldx("C10", 150, 600)], "assumptions": []},
+    "C11": {"level": "exploration", "parts": [parsex("C11"), worldx2("C11", 100, 1000)], "assumptions": []},
+    "C12": {"level": "model_checking", "parts": [worldx2("C12", 150, 1100)], "assumptions": []},
+    "C18": {"level": "model_checking", "parts": [worldx3(200, 1500)], "assumptions": []},
     "C20": {"level": "model_checking", "parts": [enginex("C20")], "assumptions": A_ENGINE},
     "C13": {"level": "exploration", "parts": [enumx("C13")], "assumptions": []},
     "C14": {"level": "exploration", "parts": [enumx("C14"), stalex()], "assumptions": []},
